@@ -354,6 +354,63 @@ func c11Run(c *mon.Ctx, idx int) {
 			return
 		}
 	}
+	// repeated budgets: the last one counts, also when it is the explicit 0
+	if threshold > 1 && idx%2 == 0 {
+		below := threshold - 1
+		for _, l := range []struct {
+			opts   []bexpr.Option
+			wantOK bool
+		}{
+			{[]bexpr.Option{bexpr.WithMaxExpressions(below), bexpr.WithMaxExpressions(0)}, base.ok},
+			{[]bexpr.Option{bexpr.WithMaxExpressions(0), bexpr.WithMaxExpressions(below)}, false},
+			{[]bexpr.Option{bexpr.WithMaxExpressions(1), bexpr.WithTagName("x"), bexpr.WithMaxExpressions(0), nil}, base.ok},
+			{[]bexpr.Option{bexpr.WithMaxExpressions(below), bexpr.WithMaxExpressions(threshold)}, base.ok},
+		} {
+			ev, err, pan, _ := createEval(s, l.opts...)
+			c.Evals(1)
+			if pan != "" || (err == nil) != l.wantOK || (ev != nil) != l.wantOK {
+				dd := d(below)
+				dd["create_err"], dd["want_ok"] = fmt.Sprint(err)+pan, l.wantOK
+				viol("repeated-budget-last-does-not-win", "of repeated WithMaxExpressions options the last one does not decide (an explicit 0 lifts an earlier limit)", dd)
+				return
+			}
+		}
+		for _, l := range []struct {
+			opts   []grammar.Option
+			wantOK bool
+		}{
+			{[]grammar.Option{grammar.MaxExpressions(below), grammar.MaxExpressions(0)}, base.ok},
+			{[]grammar.Option{grammar.MaxExpressions(0), grammar.MaxExpressions(below)}, false},
+		} {
+			_, err, pan, _ := parsePublic(s, l.opts...)
+			c.Evals(1)
+			if pan != "" || (err == nil) != l.wantOK {
+				dd := d(below)
+				dd["parse_err"], dd["want_ok"] = fmt.Sprint(err)+pan, l.wantOK
+				viol("repeated-budget-last-does-not-win", "of repeated MaxExpressions options the last one does not decide", dd)
+				return
+			}
+		}
+		// without panic recovery a budget that runs out may surface as a panic
+		// carrying the max-expressions error, or as that error - never as a result
+		for _, n := range []uint64{below, threshold / 2, 1 + uint64(idx)%below} {
+			if n == 0 {
+				continue
+			}
+			var val interface{}
+			var err error
+			t := mon.Try(func() { val, err = grammar.Parse("", []byte(s), grammar.Recover(false), grammar.MaxExpressions(n)) })
+			c.Evals(1)
+			okPanic := t.Panic && strings.Contains(t.PanicVal, maxExprMsg())
+			if !okPanic && !isMaxExprErr(err) {
+				dd := d(n)
+				dd["value"], dd["error"], dd["panic"] = clip(fmt.Sprintf("%#v", val), 200), fmt.Sprint(err), t.PanicVal
+				viol("budget-ignored-without-recover", "with Recover(false) a budget below the step count produced a result (or another error) instead of the max-expressions failure", dd)
+				return
+			}
+		}
+		c.Count("repeated_budgets_checked")
+	}
 	// layout twins: the same expression with blanks around it needs more steps;
 	// a budget that suffices for the bare text and not for the padded one must
 	// refuse the padded one also right after the bare one was created under it
@@ -453,7 +510,7 @@ func init() {
 		NumCases: func(tier string) int { return tierN(tier, 1200, 40000) },
 		Run:      c11Run,
 		Required: func(tier string) []string {
-			return []string{"inputs", "entry_point_parity_checked", "parsefile_parity_checked", "concurrent_budget_rounds", "valid_inputs", "invalid_inputs", "pathological_inputs", "pathological_rejected_within_budget", "rejected_below_threshold", "inputs_with_every_budget", "kind:nested-balanced", "kind:nested-unbalanced", "kind:long-tail", "kind:chain", "kind:many-soft-errors", "padded_twins_checked"}
+			return []string{"inputs", "entry_point_parity_checked", "parsefile_parity_checked", "concurrent_budget_rounds", "valid_inputs", "invalid_inputs", "pathological_inputs", "pathological_rejected_within_budget", "rejected_below_threshold", "inputs_with_every_budget", "kind:nested-balanced", "kind:nested-unbalanced", "kind:long-tail", "kind:chain", "kind:many-soft-errors", "padded_twins_checked", "repeated_budgets_checked"}
 		},
 	})
 }
